@@ -242,6 +242,10 @@ void pre(int kind, const void* addr) {
     int64_t len;
     if (fault(VF_STALL, &len, 2000)) w->T[me].stall_until = w->step + 20 + len;
   }
+  if (w->nhosts > 1 && !w->replay && !w->fair_mode && w->fenabled[VF_HOST_STALL]) {
+    int64_t len;
+    if (fault(VF_HOST_STALL, &len, 3000)) for (int i = 0; i < w->nT; i++) if (w->T[i].host == myhost) w->T[i].stall_until = w->step + 50 + len;
+  }
   reschedule(false);
 }
 void post(bool changed) {
